@@ -82,6 +82,12 @@ MULTI = ('parameters("Rates", k=2.0)\nstates("Membrane", x=1.0)\nstates("Gate", 
          'expressions("Gate")\ndy_dt = s - y\n')
 
 
+# the singular point is in the own state of a later component and the value is consumed by an earlier one
+MULTI2 = ('parameters("Rates", k=2.0)\nstates("Membrane", x=1.0)\nstates("Gate", y=0.5)\n'
+          'expressions("Gate")\ns = k*sin(y)/y\ndy_dt = s - y\n'
+          'expressions("Membrane")\ndx_dt = -s*x\n')
+
+
 def tasks(tier, seed):
     out = []
     for e, pts in SING:
@@ -95,6 +101,7 @@ def tasks(tier, seed):
         out.append({"family": "SINGDERIV", "id": "deriv:" + e, "text": text,
                     "opts": {"points": [(st, pt, f"-({lim})") for st, pt, lim in pts], "expr": e, "target": ["rhs", "x"]}})
     out.append({"family": "SING", "id": "multi-component:k*x/(exp(x) - 1)", "text": MULTI, "opts": {"points": [("x", "0", "k")], "expr": "k*x/(exp(x) - 1)"}})
+    out.append({"family": "SING", "id": "multi-component-own-state:k*sin(y)/y", "text": MULTI2, "opts": {"points": [("y", "0", "k")], "expr": "k*sin(y)/y"}})
     clamp = "parameters(F=2.0, R=4.0, T=0.5, V=1.0)\nstates(m=0.1)\nvfrt = V*F/(R*T)\ng = vfrt/(exp(vfrt) - 1)\ns = g\ndm_dt = s - m\n"
     full = "parameters(F=2.0, R=4.0, T=0.5)\nstates(V=1.0, m=0.1)\nvfrt = V*F/(R*T)\ng = vfrt/(exp(vfrt) - 1)\ns = g\ndV_dt = -2*s\ndm_dt = s - m\n"
     out.append({"family": "SING", "id": "history:clamp-then-full", "text": full, "opts": {"points": [("V", "0", "1", "Not(Eq(R*T, 0))")], "expr": "vfrt/(exp(vfrt) - 1)", "preload": clamp}})
